@@ -21,6 +21,7 @@ func readGitConfig(configs ...*git.ConfigurationSource) (gf *GitFetcher, extensi
 	ignored := make([]string, 0)
 
 	extensions = make(map[string]Extension)
+	definedByGit := make(map[string]bool) // extensions that Git's own configuration names
 	uniqRemotes = make(map[string]bool)
 
 	for _, gc := range configs {
@@ -60,16 +61,21 @@ func readGitConfig(configs ...*git.ConfigurationSource) (gf *GitFetcher, extensi
 				name := parts[2]
 				prop := parts[3]
 
-				if gc.OnlySafeKeys {
-					// No extension key is on the list of keys
-					// allowed in .lfsconfig; do not let one
-					// register an extension either.
+				if gc.OnlySafeKeys && prop != "priority" {
+					// .lfsconfig may order the extensions that
+					// Git's own configuration defines, nothing
+					// more: it cannot name their commands, and
+					// a name it alone mentions is no extension
+					// (see below).
 					ignored = append(ignored, key)
 					continue
 				}
 
 				ext := extensions[name]
 				ext.Name = name
+				if !gc.OnlySafeKeys {
+					definedByGit[name] = true
+				}
 
 				switch prop {
 				case "clean":
@@ -93,6 +99,11 @@ func readGitConfig(configs ...*git.ConfigurationSource) (gf *GitFetcher, extensi
 				}
 
 				extensions[name] = ext
+				if gc.OnlySafeKeys {
+					// used for the ordering only, not kept as
+					// a configuration value
+					continue
+				}
 			} else if len(parts) > 1 && parts[0] == "remote" {
 				if gc.OnlySafeKeys && (len(parts) < 3 || parts[len(parts)-1] != "lfsurl") {
 					ignored = append(ignored, key)
@@ -112,6 +123,14 @@ func readGitConfig(configs ...*git.ConfigurationSource) (gf *GitFetcher, extensi
 			}
 
 			vals[key] = append(vals[key], val)
+		}
+	}
+
+	// An extension that only .lfsconfig mentions (by a priority) has no
+	// commands and is none: running it could only fail.
+	for name := range extensions {
+		if !definedByGit[name] {
+			delete(extensions, name)
 		}
 	}
 
